@@ -281,10 +281,13 @@ where
                 .ok_or("Backref cell pointed to null cell")?
                 .value()
                 .ok_or("Backref cell pointed to cell without value")?;
-            // furthest most address backref value reaches
-            let backref_furthest_address = backref_address + (backref_value.bits() / 8) as u64;
+            // furthest most address backref value reaches. That value may end
+            // exactly at the top of the address space, so this wraps to 0
+            let backref_furthest_address =
+                backref_address.wrapping_add((backref_value.bits() / 8) as u64);
             // how many bits are left after our write
-            let left_bits = ((backref_furthest_address - address_after_write) * 8) as usize;
+            let left_bits =
+                (backref_furthest_address.wrapping_sub(address_after_write) * 8) as usize;
             // load that value
             self.load(address_after_write, left_bits)?
         } else {
